@@ -91,17 +91,39 @@ func c12a(c *Ctx) {
 				}
 				key := fmt.Sprintf("%s/result#%d", short, ri)
 				pos := c.W.Pos(r.Pos())
-				ph, isPhi := res.(*ssa.Phi)
-				if !isPhi {
+				// the alternatives of the selection: a merge of two lookups, or one lookup under a
+				// key that was chosen between the value and "_"
+				type selAlt struct {
+					key  string
+					must []string
+				}
+				var alts []selAlt
+				if ph, isPhi := res.(*ssa.Phi); isPhi && !isLoopHeader(ph.Block()) {
+					for i, e := range ph.Edges {
+						alts = append(alts, selAlt{lookupKey(c, fn, e), c.edgeMust(fn, ph.Block().Preds[i], ph.Block())})
+					}
+				} else {
+					lv := res
+					if ex, isEx := lv.(*ssa.Extract); isEx {
+						lv = ex.Tuple
+					}
+					if lk, isLk := lv.(*ssa.Lookup); isLk {
+						if kp, isPhi := lk.Index.(*ssa.Phi); isPhi && !isLoopHeader(kp.Block()) {
+							for i, e := range kp.Edges {
+								alts = append(alts, selAlt{c.term(fn, e), c.edgeMust(fn, kp.Block().Preds[i], kp.Block())})
+							}
+						}
+					}
+				}
+				if len(alts) == 0 {
 					c.Bad(key, pos, "the selected value is "+pretty(c.term(fn, res))+": a single lookup without the '_' fallback (or without the presence test)")
 					continue
 				}
 				sawValue, sawFallback := false, false
 				ok := true
 				why := ""
-				for i, e := range ph.Edges {
-					k := lookupKey(c, fn, e)
-					em := c.edgeMust(fn, ph.Block().Preds[i], ph.Block())
+				for _, al := range alts {
+					k, em := al.key, al.must
 					present := false
 					absent := false
 					for _, l := range em {
